@@ -28,6 +28,9 @@ THEOREMS = [
     'IoT.des_non_ser_F', 'IoT.load_save_h5', 'IoT.comp_dearr_F',
     'IoT.load_save_json', 'IoT.splitSep_joinP', 'IoT.unflatten_flatten',
     'IoT.load_save_npz', 'IoT.npz_empty_dict_lost', 'IoT.convert_preserves',
+    # string level of the JSON key flags (Props/JsonKey.lean)
+    'JKey.unflag_flag', 'JKey.rsplit1_append', 'JKey.removeAll_append_self',
+    'JKey.contains_append_false', 'JKey.marker_in_key_is_misread',
 ]
 
 FMTS = ['h5', 'npz', 'json']
@@ -760,8 +763,105 @@ def limitation(src, res):
     return 'documented-limitation-other'
 
 
+# --------------------------------------------------------------------------
+def suite_jkey(ctx):
+    """String level of the JSON key flags: `_dict_dearray_decomp` /
+    `_dict_array_comp` on one entry against JKey.flagKey / unflagKey, for
+    adversarial keys (markers, fragments of markers, trailing underscores)."""
+    from emg3d import io
+    rng = ctx.nprng('jkey')
+    frags = ['_', '__', '___', 'x', 'a', '-', 'Tx-1', '__array-', '__complex',
+             '__array', '_complex', '__arr', 'ay-', 'array-', '_array-',
+             '__comple', 'complex', 'float64', '>', '.', ' ', 'é']
+    keys = ['x_', '_', '__', 'a__', 'n_', 'a__b', 'data_', '_x_', 'x___',
+            'a__complex', 'a__array-float64', '__array-', '__complex_',
+            'k__array', 'k_complex', 'q__arra', 'y-__', 'x__array-__complex']
+    n = 400 if ctx.thorough else 120
+    while len(keys) < n:
+        keys.append(''.join(frags[int(i)] for i in rng.integers(
+            0, len(frags), int(rng.integers(1, 5)))))
+
+    def hexs(t):
+        return '.'.join(str(ord(c)) for c in t) if t else '-'
+
+    def unhex(w):
+        return '' if w == '-' else ''.join(chr(int(x)) for x in w.split('.'))
+    vals = [(False, None, 1.5), (False, None, 'txt'),
+            (False, 'float64', np.arange(3.)),
+            (False, 'int64', np.arange(2)),
+            (False, 'float32', np.ones(2, dtype=np.float32)),
+            (True, 'float64', np.arange(2) + 1j),
+            (True, 'float64', 1 + 2j),
+            (True, 'float32', np.ones(2, dtype=np.complex64))]
+    lines, meta = [], []
+    for k in keys:
+        for cplx, dt, val in vals:
+            lines.append(f'io jkey {hexs(k)} {int(cplx)} '
+                         f'{hexs(dt) if dt else "none"}')
+            meta.append((k, cplx, dt, val))
+    out = common.run_driver(lines, timeout=300)
+    bad = []
+    nclean = 0
+    for (k, cplx, dt, val), o in zip(meta, out):
+        mf, mk, mc, md = o.split(' ')
+        mf, mk, mc = unhex(mf), unhex(mk), mc == '1'
+        md = None if md == 'none' else unhex(md)
+        enc = io._dict_dearray_decomp({k: val})
+        rf = list(enc)[0]
+        clean = '__array-' not in k and '__complex' not in k
+        nclean += clean
+        try:
+            dec = io._dict_array_comp(enc)
+            rk = list(dec)[0]
+            rv = dec[rk]
+            got = (rk, bool(np.iscomplexobj(rv)),
+                   rv.dtype.name if isinstance(rv, np.ndarray) and
+                   rv.ndim else None)
+            err = None
+        except Exception as e:      # noqa
+            got, err = None, f'{type(e).__name__}: {e}'
+        why = None
+        if rf != mf:
+            why = f'flagged key {rf!r}, model {mf!r}'
+        elif err is not None:
+            # the code cannot read its own entry: the model must misparse too
+            if (mk, mc, md) == (k, cplx, dt):
+                why = f'reading the entry back raises {err}; the model ' \
+                      f'recovers it'
+        else:
+            exp_dt = md if md is None or not mc else \
+                {'float64': 'complex128', 'float32': 'complex64'}.get(md, md)
+            if isinstance(val, complex) and mc and md:
+                exp_dt = None       # a complex scalar comes back as a scalar
+            if got[0] != mk or got[1] != mc or \
+                    (got[2] != exp_dt and not (got[2] is None and
+                                               np.ndim(rv) == 0)):
+                why = f'read back as {got}, model {(mk, mc, md)}'
+        if why is None and clean and err is None and \
+                (got[0] != k or got[1] != cplx):
+            why = f'key without marker not recovered: {got}'
+        if why:
+            bad.append((k, cplx, dt, why))
+            if len(bad) <= 2:
+                ctx.violation(
+                    'json-key-flags',
+                    f'JSON entry {k!r} ({type(val).__name__}'
+                    f'{" " + str(getattr(val, "dtype", "")) if hasattr(val, "dtype") else ""}'
+                    f'): {why}',
+                    {'key': k, 'complex': cplx, 'dtype': dt})
+        ctx.count(key=('jkey', k, cplx, dt))
+    ctx.cov['jkey_cases'] = len(meta)
+    ctx.cov['jkey_marker_free'] = nclean
+    ctx.oblige('correspondence: _dict_dearray_decomp / _dict_array_comp on '
+               'single entries == JKey.flagKey / unflagKey for adversarial '
+               'keys (markers, fragments, trailing underscores); marker-free '
+               'keys are recovered (theorem unflag_flag)', 'correspondence',
+               not bad, str(bad[:2])[:500])
+    return bad
+
+
 def run(ctx):
-    ctx.lean('Emg3dVerif.Props.C17', THEOREMS)
+    ctx.lean('Emg3dVerif.Props.JsonKey', THEOREMS)
     ctx.assumptions += [
         'h5py, numpy.savez_compressed/np.load and json are identities on the '
         'value classes they are given (checked end to end on real files)',
@@ -773,7 +873,7 @@ def run(ctx):
         'boolean arrays',
     ]
     b = []
-    for s in (suite_tree, suite_class, suite_files):
+    for s in (suite_tree, suite_class, suite_jkey, suite_files):
         b += s(ctx) or []
     if b and not ctx.violations:
         ctx.violation('model-correspondence-broken',
@@ -783,7 +883,7 @@ def run(ctx):
 
 
 def replay(ctx, rp):
-    for s in (suite_class, suite_files):
+    for s in (suite_class, suite_jkey, suite_files):
         s(ctx)
     for v in ctx.violations:
         print('replay:', v['sig'], v['what'][:200])
